@@ -286,6 +286,14 @@ def _copula_model():
     return W.build_copula_model({"margins": [m1, m2], "copula": {"kind": "clayton", "theta": 1.5, "eta": 0.4}})
 
 
+def _seed_of(spec):
+    """the seed the way the spec says it is written: a Python int, or a numpy integer (seeds taken from an array)"""
+    sd = spec.get("seed")
+    if sd is not None and spec.get("seed_type") == "numpy":
+        return np.int64(sd)
+    return sd
+
+
 def do_run(spec):
     """spec: {"engine": "standard"|"mlmc"|"mlmc-fixed", "process": "bs"|"hem"|"merton"|"chain", "paths": N, "workers": k,
     "seed": s|None, "stochastic_dates": bool}.  Returns the stored payoff samples (list per level) and their digest."""
@@ -319,7 +327,7 @@ def do_run(spec):
             proc = MarkovChainLevyCopula(levy_copula_model=model, grid=grid, method=C.sampling_method("BINARYSEARCHTREEADAPTED"))
         else:
             proc = LevyProcess(W.build_model(fixed[spec["process"]]))
-        conf = ConfigurationStandard(mc_paths=spec["paths"], seed=spec.get("seed"), nb_of_processes=spec["workers"])
+        conf = ConfigurationStandard(mc_paths=spec["paths"], seed=_seed_of(spec), nb_of_processes=spec["workers"])
         eng = Engine(conf, proc)
 
         def price_once():
@@ -342,7 +350,7 @@ def do_run(spec):
             grid = G.build_grid({"ctor": "fixed", "dim": 1, "h": 0.1, "n": 9}, model)
             cp = CouplingMarkovChain(model=model, method=C.sampling_method(spec.get("method", "BINARYSEARCHTREEADAPTED1D")), grid=grid)
         conf = ConfigurationMultiLevel(convergence_rates=ConvergenceRates(alpha=1.0, beta=2.0, gamma=1.0), initial_level=2 if spec["process"] != "copula" else 1,
-                                       maximum_level=3 if spec["process"] != "copula" else 2, initial_mc_paths=spec["paths"], seed=spec.get("seed"), nb_of_processes=spec["workers"])
+                                       maximum_level=3 if spec["process"] != "copula" else 2, initial_mc_paths=spec["paths"], seed=_seed_of(spec), nb_of_processes=spec["workers"])
         eng = Engine(conf, cp)
 
         def price_once():
